@@ -96,7 +96,11 @@ def _contains_cut(exp: Model) -> bool:
     # Also, the outer optional defines the names in x even when x
     # does not match, so it must stay when x has named elements
     from .basic import Cut
+    from .rulelike import RuleInclude
 
+    if isinstance(exp, RuleInclude):
+        # note: >rule stands for the right hand side of the rule
+        return exp.exp is None or _contains_cut(exp.exp)
     return isinstance(exp, Cut) or any(
         _contains_cut(c) for c in exp.children() if isinstance(c, Model)
     )
